@@ -175,7 +175,21 @@ pub fn decorate(name: &str, src: &[u8]) -> Option<Vec<u8>> {
             let mut ext = vec![0x21, 0xff, 0x0b]; ext.extend_from_slice(b"VHFOREIGN10"); ext.push(FOREIGN.len() as u8); ext.extend_from_slice(FOREIGN); ext.push(0);
             let mut o = src[..pos].to_vec(); o.extend_from_slice(&ext); o.extend_from_slice(&src[pos..]); Some(o)
         }
-        "webp" | "wav" | "avi" => {
+        "avi" => {
+            // OpenDML layout: three RIFF/AVIX segments after the first RIFF chunk (odd and even sizes); the last one carries
+            // the other application's data
+            let mut o = src.to_vec();
+            let riff_len = u32::from_le_bytes([o[4], o[5], o[6], o[7]]) as usize;
+            if 8 + riff_len != o.len() { return None; }
+            for k in 0..3usize {
+                let mut body = b"AVIX".to_vec();
+                let data: Vec<u8> = if k == 2 { FOREIGN.to_vec() } else { (0..(40 + 7 * k)).map(|i| (i * 31 + k) as u8).collect() };
+                body.extend_from_slice(b"vhMK"); body.extend_from_slice(&(data.len() as u32).to_le_bytes()); body.extend_from_slice(&data); if data.len() % 2 == 1 { body.push(0); }
+                o.extend_from_slice(b"RIFF"); o.extend_from_slice(&(body.len() as u32).to_le_bytes()); o.extend_from_slice(&body);
+            }
+            Some(o)
+        }
+        "webp" | "wav" => {
             // one more chunk at the end of the RIFF list
             let mut o = src.to_vec();
             let mut ch = b"vhMK".to_vec(); ch.extend_from_slice(&(FOREIGN.len() as u32).to_le_bytes()); ch.extend_from_slice(FOREIGN); if FOREIGN.len() % 2 == 1 { ch.push(0); }
